@@ -64,6 +64,8 @@ type cliRun struct {
 	Killed bool
 	Out    string
 	Stdout []byte // raw standard output (stream data in stdout mode)
+	// TimedOut: the harness killed the run after 15 minutes of wall time
+	TimedOut bool
 	Trace  []string
 }
 
@@ -88,17 +90,19 @@ func runCLI(cli string, dir string, args []string, env map[string]string, stdin 
 		cmd.Stdin = bytes.NewReader(stdin)
 	}
 	done := make(chan error, 1)
+	timedOut := false
 	cmd.Start()
 	go func() { done <- cmd.Wait() }()
 	var err error
 	select {
 	case err = <-done:
-	case <-time.After(120 * time.Second):
+	case <-time.After(900 * time.Second):
 		cmd.Process.Kill()
 		err = <-done
-		out.WriteString("\n[harness: killed after 120 s wall]")
+		out.WriteString("\n[harness: killed after 900 s wall]")
+		timedOut = true
 	}
-	r := cliRun{Args: args, Env: envl, Out: out.String(), Stdout: raw.Bytes()}
+	r := cliRun{Args: args, Env: envl, Out: out.String(), Stdout: raw.Bytes(), TimedOut: timedOut}
 	if err != nil {
 		if ee, ok := err.(*exec.ExitError); ok {
 			if ws, ok := ee.Sys().(syscall.WaitStatus); ok && ws.Signaled() {
@@ -257,6 +261,10 @@ func C19(c *Case) *Result {
 	exec1 := func(args []string, env map[string]string, stdin []byte) cliRun {
 		r := runCLI(cli, root, args, env, stdin)
 		runs = append(runs, r)
+		if r.TimedOut {
+			// not a crash of the tool: the run did not end within 15 minutes (a hang if it recurs on replay)
+			res.fail("cli-timeout", "the tool did not terminate within 900 s: %v", args)
+		}
 		res.Events += len(r.Trace)
 		if len(r.Trace) > 0 {
 			h := sim.HashString(res.Sched)
